@@ -121,6 +121,19 @@ def assigned_in(fn, body):
     return out
 
 
+def reassigned_in(fn, body, l):
+    """local l itself is written (not merely reborrowed or written through) inside the loop"""
+    for b in body:
+        blk = fn.blocks[b]
+        for st in blk["stmts"]:
+            if st["s"] == "assign" and st["dst"]["l"] == l and not st["dst"]["p"]:
+                return True
+        tt = blk["term"]
+        if tt["t"] == "call" and tt["dest"]["l"] == l and not tt["dest"]["p"]:
+            return True
+    return False
+
+
 def carried(fn, body, entry):
     """loop-carried locals: defined before the loop (present in the entry environment) and assigned or mutably
     borrowed inside it"""
@@ -213,6 +226,15 @@ def _summarize(prog, fn, models=None, opaque=()):
         tracked = carried(fn, body, e)
         asg = assigned_in(fn, body)
         env0 = {l: v for l, v in e.items() if l not in asg}
+        # a `&mut` that stands for a local of this function (the parameter of an inlined helper that holds the loop): the
+        # loop state is the local it points to, and the reference itself does not change
+        for l in list(tracked):
+            v = e[l]
+            if isinstance(v, tuple) and len(v) == 3 and v[0] == "mref" and v[2] == () and isinstance(v[1], int) and v[1] in e and v[1] != 0 \
+                    and fn.local_ty(l).startswith("&mut ") and not reassigned_in(fn, body, l):
+                tracked = sorted(set(x for x in tracked if x != l) | {v[1]})
+                env0[l] = v
+                env0.pop(v[1], None)
         it_local, I, N, start = None, None, None, None
         for l in tracked:
             v = e[l]
@@ -390,6 +412,13 @@ def exit_value(prog, fn, lp, models=None, opaque=()):
     for l in range(len(fn.locals)):
         if l in asg:
             env[l] = P("L%d" % l)
+    for l in lp["tracked"]:
+        if l not in asg:
+            # the pointee of a `&mut` helper parameter (see summarize): loop state, while the reference keeps its value
+            env[l] = P("L%d" % l)
+            for r_, v_ in lp["entry"].items():
+                if v_ == ("mref", l, ()):
+                    env[r_] = v_
     ne = sym.normal_exit(fn, lp["head"], lp["body"])
     if ne is None:
         raise sym.Undecided("loop has no recognisable normal exit")
